@@ -522,6 +522,10 @@ pub struct Case {
     /// evaluate under the Turkish language tag (arithmetic does not depend on words)
     #[serde(default)]
     pub tr: bool,
+    /// set_number_configuration(digits, remove_fract_if_zero, use_fract_rounding): how numbers are PRINTED has no say in
+    /// what a line evaluates to
+    #[serde(default)]
+    pub num: Option<(u8, bool, bool)>,
 }
 
 pub fn render_case(c: &Case) -> (Cfg, Vec<Tok>, String) {
@@ -534,7 +538,9 @@ pub fn render_case(c: &Case) -> (Cfg, Vec<Tok>, String) {
         let name = words[monotone_index(i, words.len())];
         line = format!("{} = {}", name, line);
     }
-    (Cfg::seps(dec, thou), toks, line)
+    let mut cfg = Cfg::seps(dec, thou);
+    cfg.num = c.num;
+    (cfg, toks, line)
 }
 
 pub struct Arith;
@@ -572,6 +578,7 @@ impl Prop for Arith {
             Err(e) => return Verdict::fail(e, line),
         };
         let line = if c.tr { format!("[tr] {}", line) } else { line };
+        let line = if let Some(n) = c.num { format!("[number format {:?}] {}", n, line) } else { line };
         let mut acc = Acc::new();
         match &slot {
             Slot::Ok { v: V::Num(got, NT::Decimal), .. } => {
@@ -685,7 +692,7 @@ pub fn deep_strategy() -> impl Strategy<Value = Case> {
                 }
             };
         }
-        Case { e, spaces: vec![if blank { 1 } else { 0 }; 8], seps: 0, assign, tr: false }
+        Case { e, spaces: vec![if blank { 1 } else { 0 }; 8], seps: 0, assign, tr: false, num: None }
     })
 }
 
@@ -701,20 +708,21 @@ pub fn tiny_strategy() -> impl Strategy<Value = Case> {
             magnitude += if div { -21 } else { 21 };
             e = E::Bin(if div { Op::Div } else { Op::Mul }, false, Box::new(e), Box::new(lit));
         }
-        Case { e, spaces: vec![if blank { 1 } else { 0 }; 80], seps: 0, assign, tr: false }
+        Case { e, spaces: vec![if blank { 1 } else { 0 }; 80], seps: 0, assign, tr: false, num: None }
     })
 }
 
 pub fn case_strategy(depth: u32, size: u32) -> impl Strategy<Value = Case> {
-    (case_strategy_en(depth, size), prop::bool::weighted(0.15)).prop_map(|(mut c, tr)| {
+    (case_strategy_en(depth, size), prop::bool::weighted(0.15), prop_oneof![5 => Just(None), 1 => (0u8..=6, any::<bool>(), any::<bool>()).prop_map(Some)]).prop_map(|(mut c, tr, num)| {
         c.tr = tr;
+        c.num = num;
         c
     })
 }
 
 fn case_strategy_en(depth: u32, size: u32) -> impl Strategy<Value = Case> {
     (expr_strategy(depth, size), prop::collection::vec(prop_oneof![5 => Just(0u8), 4 => Just(1u8), 1 => Just(2u8), 1 => Just(3u8)], 0..80), prop_oneof![3 => Just(0usize), 1 => 1usize..4], prop::option::weighted(0.2, any::<u32>()))
-        .prop_map(|(e, spaces, seps, assign)| Case { e, spaces, seps, assign, tr: false })
+        .prop_map(|(e, spaces, seps, assign)| Case { e, spaces, seps, assign, tr: false, num: None })
 }
 
 /// all trees with <= 3 operators over the literal set {2,3,5,7} (shape-exhaustive), one spacing
@@ -770,7 +778,7 @@ pub fn small_table() -> Vec<Case> {
                     let e = fill(&sh, &ops, &lits, &mut oi, &mut li, code);
                     for sp in 0..2u8 {
                         for assign in [None, Some(7u32 << 24)] {
-                            out.push(Case { e: e.clone(), spaces: vec![sp; 40], seps: 0, assign, tr: false });
+                            out.push(Case { e: e.clone(), spaces: vec![sp; 40], seps: 0, assign, tr: false, num: None });
                         }
                     }
                 }
@@ -846,7 +854,7 @@ pub fn regression_table() -> Vec<Case> {
     for t in trees {
         for sp in 0..2u8 {
             for assign in [None, Some(3u32 << 26)] {
-                out.push(Case { e: (*t).clone(), spaces: vec![sp; 40], seps: 0, assign, tr: false });
+                out.push(Case { e: (*t).clone(), spaces: vec![sp; 40], seps: 0, assign, tr: false, num: None });
             }
         }
     }
@@ -854,7 +862,7 @@ pub fn regression_table() -> Vec<Case> {
 }
 
 pub fn run(ctx: &Ctx) {
-    ctx.rule("generated: expression trees over decimal literals (integers, fractions, attached signs, k..Y suffixes, thousands groups), + - * /, redundant and required parentheses, detached sign prefixes on literals and groups, juxtaposed operands (literals and parenthesised groups: 2 3, 2 (3) 4, (1 + 2) 3), 0-3 blanks per gap, 4 separator conventions, optionally as the right-hand side of an assignment, under the language tags en and tr; plus trees wrapped 10-160 levels deep in parentheses (redundant, or `(inner op literal)` layers, with group signs); plus quotient chains over literals with the suffixes T..Y whose values run from 1e-300 through the subnormal range to an exact 0; oracle = reference evaluator over the tree (f64, x/0=0), tolerance 1e-9 relative or - where operands cancel - 10^6 times the propagated rounding-error bound (never an absolute epsilon); non-trivial = DISTINGUISHING: the reference value differs from at least one wrong reading of the same tokens (no precedence / right-associative / parentheses ignored); distinct = distinct rendered line + configuration");
+    ctx.rule("generated: expression trees over decimal literals (integers, fractions, attached signs, k..Y suffixes, thousands groups), + - * /, redundant and required parentheses, detached sign prefixes on literals and groups, juxtaposed operands (literals and parenthesised groups: 2 3, 2 (3) 4, (1 + 2) 3), 0-3 blanks per gap, 4 separator conventions, optionally as the right-hand side of an assignment, under the language tags en and tr, a sixth of the trees under a random number format (printing only: the value must not change); plus trees wrapped 10-160 levels deep in parentheses (redundant, or `(inner op literal)` layers, with group signs); plus quotient chains over literals with the suffixes T..Y whose values run from 1e-300 through the subnormal range to an exact 0; oracle = reference evaluator over the tree (f64, x/0=0), tolerance 1e-9 relative or - where operands cancel - 10^6 times the propagated rounding-error bound (never an absolute epsilon); non-trivial = DISTINGUISHING: the reference value differs from at least one wrong reading of the same tokens (no precedence / right-associative / parentheses ignored); distinct = distinct rendered line + configuration");
     ctx.assume("a quotient chain NUM / NUM / NUM whose operands read as a valid day/month/year is a date by design and is excluded (counted under excluded)");
     ctx.assume("juxtaposition is generated where the left side ends in a literal or ')' and the right side starts with an unsigned literal or '('; a sign prefix applies to a literal (possibly carrying its own attached sign) or to a parenthesised group");
     ctx.run_table(&Arith, "regressions", regression_table(), false);
